@@ -59,6 +59,7 @@ pub fn exec(input: &Value) -> Value {
     for k in ["gen_seed", "kind", "dir", "id"] {
         ev[k] = input[k].clone();
     }
+    ev["versions"] = cli::module_versions()["list"].clone();
     ev
 }
 
